@@ -167,14 +167,21 @@ package protocol
 // the pending total after admission does not exceed the limit. (The receive loop removes one entry
 // per handled message; see recvLoop.)
 //@ func (p *Protocol) readLoop()
-//@   props C13
+//@   props C10 C13
 //@   attr safe off
 //@   attr inline 2
 //@   callback send:recvQueueChan requires accounted: len(p.pendingRecvSizes) >= 1 && p.pendingRecvSizes[len(p.pendingRecvSizes)-1] == msgLen && msgLen == len(msgData)
 //@   callback send:recvQueueChan requires bounded: limit > 0 ==> msgLen <= limit && p.pendingRecvBytes <= limit
 //@   callback send:recvQueueChan requires fromcodec: arg0 == msg && msg != nil
-//@   loop 0 invariant true
-//@   loop 1 invariant true
+//@   callback MessageFromCborFunc requires front: arg1 == subslice(bufdata(readBuffer), 0, numBytesRead) && numBytesRead > 0 && numBytesRead <= len(bufdata(readBuffer))
+//@   callback call:bytes.NewBuffer requires rest: ifbound(numBytesRead, arg0 == subslice(bufdata(readBuffer), numBytesRead, len(bufdata(readBuffer))) && numBytesRead < len(bufdata(readBuffer)))
+//@   callback call:Reset requires consumed: numBytesRead == len(bufdata(readBuffer))
+//@   token fed acquire call:Write consume release:Decode
+//@   loop 0 invariant private(readBuffer)
+//@   loop 0 invariant !holds(fed)
+//@   loop 1 invariant private(readBuffer)
+//@   loop 1 invariant !holds(fed)
+//@   loop 1 invariant numBytesRead > 0 && numBytesRead <= len(bufdata(readBuffer))
 
 // C12: the send loop advances the local state machine once per "ready to send" signal and sends
 // nothing the state machine refused. Every call of transitionState consumes the signal received
@@ -184,7 +191,7 @@ package protocol
 // first message was accepted by the state machine (transitionState returned nil), and every segment
 // has between 0 and 65535 payload bytes and carries this protocol's number.
 //@ func (p *Protocol) sendLoop()
-//@   props C12
+//@   props C10 C12
 //@   attr safe off
 //@   attr trackcalls on
 //@   attr inline 2
@@ -195,9 +202,14 @@ package protocol
 //@   callback call:slices.Delete requires headonly: arg0 == queuedStateTransitions && arg1 == 0 && arg2 == 1
 //@   callback send:muxerSendChan requires accepted: holds(accepted)
 //@   callback send:muxerSendChan requires segment: arg0 != nil && len(arg0.Payload) <= 65535
+//@   callback send:muxerSendChan requires piece: arg0.Payload == subslice(bufdata(payloadBuf), 0, segmentPayloadLength)
+//@   callback send:muxerSendChan requires piecelen: segmentPayloadLength == ite(len(bufdata(payloadBuf)) < 65535, len(bufdata(payloadBuf)), 65535)
+//@   callback call:bytes.NewBuffer requires rest: ifbound(segmentPayloadLength, arg0 == subslice(bufdata(payloadBuf), segmentPayloadLength, len(bufdata(payloadBuf))) && segmentPayloadLength < len(bufdata(payloadBuf)))
 //@   loop 0 invariant !holds(ready)
 //@   loop 1 invariant (holds(ready) <==> !queueTransition) && (queueTransition ==> holds(accepted))
 //@   loop 2 invariant !holds(ready) && holds(accepted)
+//@   loop 1 invariant private(payloadBuf)
+//@   loop 2 invariant private(payloadBuf)
 
 // Hands a message to the state-transition goroutine and waits for its verdict (channels): the body
 // is outside the verified kernel; callers only rely on the returned error.
